@@ -36,7 +36,11 @@ DT = {"int8": (-128, 127), "uint8": (0, 255), "int16": (-32768, 32767), "uint16"
 LAYOUTS = ["C", "strided", "rev", "readonly"]
 ARR_DTYPES = ["bool", "uint8", "int32", "int64", "float32", "float64"]
 ARR_LAYOUTS = ["C", "F", "strided", "T", "rev"]
-PFORMS = ["tuple", "list", "np64", "np32", "arr64", "arr32", "intp"]
+PFORMS = ["tuple", "list", "np64", "np32", "arr64", "arr32", "intp",
+          # unsigned / narrow numpy end points (coordinates of "draw" cases are 0..24): differences taken in the
+          # end points' own dtype would wrap (fix 10bf56e)
+          "arr:uint8", "arr:uint16", "arr:uint32", "arr:uint64", "arr:int8", "arr:int16",
+          "np:uint8", "np:uint16", "np:uint32", "np:uint64", "np:int8"]
 VALUES = [["int", 7], ["int", 1], ["bool", 1], ["float", 2.5], ["np_uint8", 3], ["np_float32", 6.0], ["default", 1]]
 
 
@@ -181,6 +185,8 @@ def generate(ctx):
             ctx.count("lines:" + c.get("dtype", "int") + "/" + c.get("layout", "C"))
         elif c["fn"] == "draw":
             ctx.count("draw:" + (c["arr"]["dtype"] + "/" + c["arr"]["layout"] if "arr" in c else "grid"))
+            if "arr" in c:
+                ctx.count("draw_endpoints:" + c["arr"]["pform"])
         else:
             ctx.count(c["fn"] + ":" + c.get("which", ""))
     return cases
@@ -207,6 +213,10 @@ def _pform(form, y, x):
         return (np.int64(y), np.int64(x))
     if form == "np32":
         return (np.int32(y), np.int32(x))
+    if form.startswith("arr:"):
+        return np.array([y, x], np.dtype(form[4:]))
+    if form.startswith("np:"):
+        return (np.dtype(form[3:]).type(y), np.dtype(form[3:]).type(x))
     if form == "arr64":
         return np.array([y, x], np.int64)
     if form == "arr32":
